@@ -92,6 +92,18 @@ func (g *gen) property(p string) bool {
 	case "C08":
 		g.genCodabar()
 		g.genTof()
+	case "C09":
+		g.genScale()
+	case "C10":
+		g.genAccept()
+	case "C11":
+		g.genRender()
+	case "C12":
+		g.genECC()
+	case "C13":
+		g.genSmallest()
+	case "C14":
+		g.genCheckSum()
 	case "C17":
 		g.genGF()
 	case "C18":
@@ -429,7 +441,7 @@ func (g *gen) genGF() {
 			np := 1 + g.intn(12)
 			nq := 1 + g.intn(6)
 			p := g.ilist(np, f[1])
-			q := fmt.Sprint(1+g.intn(f[1]-1)) // non-zero leading coefficient
+			q := fmt.Sprint(1 + g.intn(f[1]-1)) // non-zero leading coefficient
 			if nq > 1 {
 				q += "," + g.ilist(nq-1, f[1])
 			}
